@@ -390,7 +390,7 @@ func init() {
 	register(&Property{
 		ID: "C19", Plain: true, Level: "fault_enumeration",
 		Rule:   "fixed corpus: a fault-injecting identity stub / RAISE / RAISE_WHEN / a wrongly-typed value in every synchronously evaluated clause position (WHERE, select list, function argument, CASE, HAVING, CTE body and chain, derived table, row-scoped subquery, IN subquery, EXISTS, union branch, join ON, arithmetic, DISTINCT/ORDER/LIMIT) x EVERY invocation index k = 1..N (N measured by a fault-free run) resp. every row j — exhaustive for the corpus; plus rapid-generated queries (1-4 fault sites) again exhaustive in k per query; each faulted run is [failing query, follow-up query, fault-free repeat] in one process; non-trivial = a fault actually fired; distinct = distinct case-file hash",
-		Corpus: corpusC19, Gen: genC19, Eval: evalC19, QuickChecks: 12,
+		Corpus: corpusC19, Gen: genC19, Eval: evalC19, QuickChecks: 150,
 		Assumptions: []string{
 			"faults enter through the user-function seam (error return at the k-th call), RAISE/RAISE_WHEN and wrongly typed data; ASYNC/SPIN-qualified calls are excluded (the statement is about synchronous steps)",
 			"a panic crossing the API under a fault is C10's finding and is not double-reported here",
